@@ -111,13 +111,18 @@ def second_pass_lines(summary: Dict) -> List[Dict]:
     are dispatched for every task, also for those that end without a candidate)"""
     qx = {q["id"]: q["x"] for q in summary["inp"]["qrys"]}
     tasks: Dict[int, List] = {}
+    half: Dict[tuple, int] = {}
     ref0 = next(r["id"] for r in summary["inp"]["refs"] if r["x"])      # the first reference the reader keeps
     for ev in summary["modes"]["all"]["recorded"]:
         # one Primary event per (task, reference, strand): count each task once (first reference, forward strand),
         # keeping multiplicity (a fragment may coincide with the whole query)
-        if ev["ev"] == "Primary" and ev.get("task") and ev["ref"] == ref0 and not ev["rev"]:
+        # every task dispatches exactly two seeding events per reference (forward, reverse; an EmptyInitialAlignment
+        # carries reverseStrand False on both): every second event of the first reference counts one task
+        if ev["ev"] == "Primary" and ev.get("task") and ev["ref"] == ref0:
             qid, shift, npos = ev["task"]
-            tasks.setdefault(qid, []).append((shift, npos))
+            half[(qid, shift, npos)] = half.get((qid, shift, npos), 0) + 1
+            if half[(qid, shift, npos)] % 2 == 0:
+                tasks.setdefault(qid, []).append((shift, npos))
     f1 = summary["modes"]["all"]["files"].get("_1")
     out = []
     if not f1:
